@@ -268,7 +268,7 @@ func opGenAB(profile []kindW, maxAB int) *rapid.Generator[sim.Op] {
 			A: rapid.IntRange(0, maxAB).Draw(t, "a"),
 			B: rapid.IntRange(0, maxAB).Draw(t, "b"),
 			C: rapid.IntRange(0, 23).Draw(t, "c"),
-			D: rapid.IntRange(0, 11).Draw(t, "d"),
+			D: rapid.IntRange(0, 15).Draw(t, "d"),
 			U: rapid.Uint64Range(0, 4095).Draw(t, "u"),
 		}
 	})
